@@ -4187,3 +4187,191 @@ example : freq (mergeSD (countAll false [exRec]) (countAll false [exRec])) 6 = f
   (merge_freq_spec false [exRec] [exRec] 6).1
 
 end DendroModel.C05
+
+namespace DendroModel.C05
+open DendroModel DendroModel.Hier DendroModel.C05.Aux
+
+/-- the splits of the record the driver builds are the split masks of C01's `encode` with default flags, in order -/
+theorem treeRecOf_splits_encode (r : Option Bool) (w : Option Rat) (t : T) :
+    (treeRecOf r w t).splits = (C01.encode r true true t).map (·.2) := by
+  show ((C04.edgeRecs r t).map (·.split)) = _
+  unfold C04.edgeRecs C01.encode
+  simp only [List.map_map]
+  rw [← edgesPost_fst true (C01.encodeTree r true true t), List.map_map]
+  rfl
+
+/-- every stored split is a natural number, so `Int.toNat` (what `restoreTree` hands to `build`) loses nothing -/
+theorem restore_splits_mem (r : Option Bool) (w : Option Rat) (t : T) (x : Nat) :
+    x ∈ (treeRecOf r w t).splits.map Int.toNat ↔ (x : Int) ∈ (C01.encode r true true t).map (·.2) := by
+  rw [treeRecOf_splits_encode]
+  constructor
+  · intro h
+    obtain ⟨z, hz, rfl⟩ := List.mem_map.mp h
+    obtain ⟨m, _, hm⟩ := (C01.Aux.mem_encode_splits r true true t z).mp hz
+    rw [C01.split_spec] at hm
+    subst hm
+    rw [Int.toNat_natCast]
+    exact hz
+  · intro h
+    exact List.mem_map.mpr ⟨(x : Int), h, by simp⟩
+end DendroModel.C05
+
+namespace DendroModel.C05
+open DendroModel DendroModel.Hier DendroModel.C05.Aux
+
+/-- **`restore_tree` gives back the topology, rooted.**  For a well-formed rooted input tree whose taxa are exactly the namespace
+    members, the tree `restoreTree` builds from the record the driver stored for it is the input tree up to child order and
+    unifurcations, and has no unifurcation. -/
+theorem restore_rooted_topology (w : Option Rat) (t : T) (all : Nat) (members : List Nat)
+    (hg : Good (T.toH t)) (h0 : t.mask ≠ 0) (hm : members.Nodup)
+    (hmem : ∀ b, b ∈ members ↔ b ∈ bits t.mask) (hall : bits t.mask ⊆ bits all) :
+    Iso (Hier.sup (T.toH t)) (restoreTree all members true (treeRecOf (some true) w t))
+    ∧ NoUnif (restoreTree all members true (treeRecOf (some true) w t)) :=
+  C01.rebuild_rooted_topology true true t all members _ hg h0 hm hmem hall (restore_splits_mem (some true) w t)
+
+/-- **… and not rooted** (≥ 3 taxa): the restored tree is well formed, has no unifurcation, and is the input tree as an unrooted
+    topology (same canonical re-seeding on the lowest taxon, up to child order). -/
+theorem restore_unrooted_topology (w : Option Rat) (t : T) (all : Nat) (members : List Nat)
+    (hg : Good (T.toH t)) (h3 : C01.Bridge.ThreeTaxa t.mask) (hm : members.Nodup)
+    (hmem : ∀ b, b ∈ members ↔ b ∈ bits t.mask) (hall : bits t.mask ⊆ bits all)
+    (k : Nat) (hk : Lsb.lsb t.mask = 1 <<< k) :
+    Iso (C01.canonU k (Hier.sup (T.toH t))) (C01.canonU k (restoreTree all members false (treeRecOf (some false) w t)))
+    ∧ Good (restoreTree all members false (treeRecOf (some false) w t))
+    ∧ NoUnif (restoreTree all members false (treeRecOf (some false) w t)) :=
+  C01.rebuild_unrooted_topology true true t all members _ hg h3 hm hmem hall k hk (restore_splits_mem (some false) w t)
+
+/-- **The maximum-credibility tree has the topology of the input tree attaining the maximum score.**  For a non-empty rooted sample of
+    well-formed trees over exactly the namespace members, `mccTree` on the index the collection reports (`mccProd`, resp. `mccSum`:
+    first maximiser of the scores, `mcc_index_spec`) answers with a tree that is — up to child order and unifurcations — the input
+    tree at that index, whose score is at least every tree's. -/
+theorem mcc_tree_topology (sd : SD) (incl : Bool) (ws : List (Option Rat × T)) (all : Nat) (members : List Nat)
+    (hne : ws ≠ []) (hm : members.Nodup)
+    (hws : ∀ p ∈ ws, Good (T.toH p.2) ∧ p.2.mask ≠ 0 ∧ (∀ b, b ∈ members ↔ b ∈ bits p.2.mask) ∧ bits p.2.mask ⊆ bits all) :
+    let ts := ws.map (fun p => treeRecOf (some true) p.1 p.2)
+    (∃ i, ∃ h : i < ws.length, ∃ tr, mccProd sd incl ts = some i ∧ mccTree (mccProd sd incl ts) all members true ts = some tr
+        ∧ Iso (Hier.sup (T.toH (ws[i]).2)) tr ∧ NoUnif tr
+        ∧ ∀ j (hj : j < ts.length), prodSupport sd incl ts[j] ≤ prodSupport sd incl (ts[i]'(by simpa [ts] using h)))
+    ∧ (∃ i, ∃ h : i < ws.length, ∃ tr, mccSum sd incl ts = some i ∧ mccTree (mccSum sd incl ts) all members true ts = some tr
+        ∧ Iso (Hier.sup (T.toH (ws[i]).2)) tr ∧ NoUnif tr
+        ∧ ∀ j (hj : j < ts.length), sumSupport sd incl ts[j] ≤ sumSupport sd incl (ts[i]'(by simpa [ts] using h))) := by
+  intro ts
+  have hlen : ts.length = ws.length := by simp [ts]
+  have hne' : ts ≠ [] := by intro e; apply hne; simpa [ts] using e
+  obtain ⟨⟨i1, hi1, hl1, hmax1, _⟩, ⟨i2, hi2, hl2, hmax2, _⟩⟩ := mcc_index_spec sd incl ts hne'
+  have key : ∀ i (hl : i < ts.length), ∃ tr, mccTree (some i) all members true ts = some tr
+      ∧ Iso (Hier.sup (T.toH (ws[i]'(by omega)).2)) tr ∧ NoUnif tr := by
+    intro i hl
+    have hw : i < ws.length := by omega
+    obtain ⟨hg, h0, hmem, hall⟩ := hws ws[i] (List.getElem_mem hw)
+    have hr := restore_rooted_topology (ws[i]).1 (ws[i]).2 all members hg h0 hm hmem hall
+    refine ⟨_, ?_, hr.1, hr.2⟩
+    simp [mccTree, ts, hw]
+  constructor
+  · obtain ⟨tr, h1, h2, h3⟩ := key i2 hl2
+    exact ⟨i2, by omega, tr, hi2, by rw [hi2]; exact h1, h2, h3, hmax2⟩
+  · obtain ⟨tr, h1, h2, h3⟩ := key i1 hl1
+    exact ⟨i1, by omega, tr, hi1, by rw [hi1]; exact h1, h2, h3, hmax1⟩
+
+/-- hypotheses of `mcc_tree_topology` / `restore_rooted_topology`: the rooted tree (0,(1,2)) over the namespace {0,1,2} -/
+example : ([(none, exT)] : List (Option Rat × T)) ≠ [] ∧ ([0, 1, 2] : List Nat).Nodup
+    ∧ ∀ p ∈ ([(none, exT)] : List (Option Rat × T)), Good (T.toH p.2) ∧ p.2.mask ≠ 0
+        ∧ (∀ b, b ∈ [0, 1, 2] ↔ b ∈ bits p.2.mask) ∧ bits p.2.mask ⊆ bits 7 := by
+  refine ⟨by simp, by decide, ?_⟩
+  intro p hp
+  simp only [List.mem_singleton] at hp
+  subst hp
+  have hmask : exT.mask = 7 := by decide
+  refine ⟨by simp [exT, T.toH, T.toHL, Good, GoodL, Hier.mask, Hier.maskL], by rw [hmask]; decide, ?_, by rw [hmask]⟩
+  intro b
+  rw [hmask]
+  simp only [bits, Set.mem_ofPred_eq, List.mem_cons, List.not_mem_nil, or_false]
+  constructor
+  · rintro (rfl | rfl | rfl) <;> decide
+  · intro h
+    by_contra hb
+    have : 3 ≤ b := by omega
+    have h7 : (7 : Nat) < 2 ^ b := calc (7 : Nat) < 2 ^ 3 := by decide
+      _ ≤ 2 ^ b := Nat.pow_le_pow_right (by decide) this
+    rw [Nat.testBit_lt_two_pow h7] at h
+    exact Bool.noConfusion h
+
+end DendroModel.C05
+
+namespace DendroModel.C05.Aux
+open DendroModel DendroModel.Hier DendroModel.C05
+
+theorem lookup_appendLens (d : List (Int × List Rat)) (k : Int) (l : List Rat) (s : Int) :
+    lookupIn (appendLens d k l) s = if s = k then some ((lookupIn d s).getD [] ++ l) else lookupIn d s := by
+  induction d with
+  | nil =>
+    by_cases h : s = k
+    · subst h; simp [appendLens, lookupIn]
+    · have : ¬ k = s := fun e => h e.symm
+      simp [appendLens, lookupIn, h, this]
+  | cons q rest ih =>
+    simp only [appendLens]
+    by_cases hq : q.1 = k
+    · simp only [hq, beq_self_eq_true, if_true]
+      by_cases h : s = k
+      · subst h; simp [lookupIn, hq]
+      · have : ¬ k = s := fun e => h e.symm
+        simp [lookupIn, h, hq, this]
+    · have hq' : (q.1 == k) = false := by simpa using hq
+      simp only [hq', Bool.false_eq_true, if_false]
+      by_cases hqs : q.1 = s
+      · have hsk : ¬ s = k := fun e => hq (hqs.trans e)
+        simp [lookupIn, hqs, hsk]
+      · have e1 : lookupIn ((q.1, q.2) :: appendLens rest k l) s = lookupIn (appendLens rest k l) s := by
+          simp [lookupIn, hqs]
+        have e2 : lookupIn (q :: rest) s = lookupIn rest s := by
+          simp [lookupIn, hqs]
+        rw [e1, e2]; exact ih
+
+theorem lookup_merge_lens (g : Int → List Rat) : ∀ (b : List (Int × Rat)) (a : List (Int × List Rat)) (s : Int), KeysNodup b →
+    lookupIn (b.foldl (fun d p => appendLens d p.1 (g p.1)) a) s
+      = if s ∈ b.map (·.1) then some ((lookupIn a s).getD [] ++ g s) else lookupIn a s
+  | [], a, s, _ => by simp
+  | q :: rest, a, s, h => by
+    have hnd := List.nodup_cons.mp (show (q.1 :: rest.map (·.1)).Nodup from h)
+    rw [List.foldl_cons, lookup_merge_lens g rest _ s hnd.2, lookup_appendLens]
+    by_cases hq : s = q.1
+    · have hnot : s ∉ rest.map (·.1) := by rw [hq]; exact hnd.1
+      simp [hq, hnd.1]
+    · have e : (s ∈ (q :: rest).map (·.1)) ↔ s ∈ rest.map (·.1) := by
+        simp only [List.map_cons, List.mem_cons, hq, false_or]
+      simp only [hq, if_false, e]
+
+end DendroModel.C05.Aux
+
+namespace DendroModel.C05
+open DendroModel DendroModel.Hier DendroModel.C05.Aux
+
+/-- **Value lists after a merge.**  After `update` from a distribution `b` (a Python dict of counts: no key twice), the value list of
+    every split that `b` counted is the receiver's list followed by `b`'s list (a key is created even when both are empty —
+    `summaryTable` skips such entries), and the lists of all other splits are untouched. -/
+theorem merge_lengths_spec (a b : SD) (s : Int) (hb : KeysNodup b.counts) :
+    lookupIn (mergeSD a b).lengths s
+      = if s ∈ b.counts.map (·.1) then some ((lookupIn a.lengths s).getD [] ++ (lookupIn b.lengths s).getD [])
+        else lookupIn a.lengths s :=
+  lookup_merge_lens (fun k => (lookupIn b.lengths k).getD []) b.counts a.lengths s hb
+
+/-- … instantiated for counted distributions: the hypothesis holds (`countAll_keys_nodup`), `b`'s keys are the splits occurring in its
+    trees, and both lists are the splits' values over the respective trees in the order counted (`lengths_spec`): the merged list of a
+    split of `ts2` is its values over `ts1` followed by its values over `ts2` — the list sequential counting of `ts1 ++ ts2` builds. -/
+theorem merge_lengths_counted (u : Bool) (ts1 ts2 : List TreeRec) (s : Int) (h2 : ∃ t ∈ ts2, s ∈ t.splits) :
+    lookupIn (mergeSD (countAll u ts1) (countAll u ts2)).lengths s = some ((ts1 ++ ts2).flatMap (valsOf s)) := by
+  rw [merge_lengths_spec _ _ s (countAll_keys_nodup u ts2)]
+  have hk : s ∈ (countAll u ts2).counts.map (·.1) := by
+    have hc := count_spec u ts2 s
+    rw [if_pos h2] at hc
+    have := (countOf_isSome (countAll u ts2).counts s).mp (by rw [hc]; rfl)
+    obtain ⟨c, hc'⟩ := this
+    exact List.mem_map.mpr ⟨(s, c), hc', rfl⟩
+  rw [if_pos hk, lengths_spec, lengths_spec, List.flatMap_append]
+  by_cases e1 : ts1.flatMap (valsOf s) = [] <;> by_cases e2 : ts2.flatMap (valsOf s) = [] <;> simp [e1, e2]
+
+example : lookupIn (mergeSD (countAll false [exRecL 2]) (countAll false [exRecL 4])).lengths 6 = some [2, 4] := by
+  rw [merge_lengths_counted false _ _ 6 ⟨exRecL 4, by simp, by simp [exRecL, exRec]⟩]
+  simp [valsOf, exRecL, exRec]
+
+end DendroModel.C05
